@@ -2,7 +2,8 @@
 
 Theorems: coq/Properties/Properties_C08.v over coq/Wire/WireModel.v (record header + DTLS epoch
 skip, TLS 1.3 header/CCS loop, handshake header + TLS / TLS 1.3 / DTLS fragment reassembly, API
-buffer arithmetic, CBC pad/MAC layout) with the rd/wr/Fault discipline.
+buffer arithmetic, CBC pad/MAC layout) and coq/Wire/PbufModel.v (psParseTlsVariableLengthVec and the psParseBuf
+primitives of core/src/psbuf.c / psbuf.h) with the rd/wr/Fault discipline.
 Tie (i): harness/h_wire.c `u` operations (ASan+UBSan build) against the extracted model
 (ocaml/drv_c08.ml): result tuples must agree and a model Fault must coincide with a sanitizer report.
 Tie (ii) / exploration: structure-aware mutations of real transcripts in every state reached by a
@@ -30,11 +31,13 @@ EXPLORED_ONLY = [
     "tls13DecodeExt.c: every TLS 1.3 extension parser (key_share, supported_versions, pre_shared_key, signature_algorithms, ...)",
     "sslDecode.c: decrypt + MAC verification, alert / change_cipher_spec / application_data record bodies, encodeResponse",
     "dtls.c: dtlsChkReplayWindow (proved for C16), flight resend (matrixDtlsGetOutdata timeout path), HelloVerifyRequest cookie",
-    "core/src/psbuf.c + core/include/psbuf.h psParseBuf helpers as used by the TLS 1.3 parsers",
+    "core/src/psbuf.c + core/include/psbuf.h: only the parse primitives used by tls13Decode*.c are modelled (coq/Wire/PbufModel.v); the psDynBuf / ASN.1 "
+    "(psParseBufGetTagLen ...) parts are explored only",
     "x509.c certificate parsing reached through Certificate messages (subject of C09)",
 ]
 
 
+ALWAYS_CLASSES = ("tail-over-split", "ext-last-split")      # never sampled away: every (overclaim, nesting level) of every handshake message
 RESEND_CLASSES = ("dup-newseq", "dup-newseq-timeout", "timeout", "resend-prev", "resend-prev-timeout")
 
 # ------------------------------------------------------------------ transcript handling
@@ -201,12 +204,27 @@ def mutations(cfg, units, k, r):
             yield ("ccs-prefix", "e" + nf, [ccs * n + W])
             yield ("ccs-only", "e", [ccs * n])
             yield ("ccs-partial", "e", [ccs * n + W[:r.randrange(1, max(2, len(W)))]])
+    def refrag(mc):
+        """the same (mutated) handshake content delivered so that it is parsed out of an exact-size reassembly buffer"""
+        if ct != 22 or len(mc) < 6: return None
+        if not d:
+            i = r.randrange(1, len(mc))
+            return [u.rec(mc[:i]), u.rec(mc[i:])]
+        ms = hs_msgs(cfg, mc)
+        if not ms: return None
+        (t_, L_, msn_, off_, fl_, body_, s_, e_) = ms[0]
+        if off_ != 0 or fl_ != L_ or len(body_) != L_ or L_ < 2: return None
+        i = r.randrange(1, L_)
+        out_ = [u.rec(hs_hdr(cfg, t_, L_, msn_, 0, i) + body_[:i]), u.rec(hs_hdr(cfg, t_, L_, msn_, i, L_ - i) + body_[i:] + mc[e_:], seqadd=1)]
+        return out_
     # ---- content level (chosen plaintext: the peer owns the keys)
     flips = content
     for _ in range(24):
         if not content: break
         b = bytearray(content); i = r.randrange(len(b)); b[i] ^= 1 << r.randrange(8)
         yield ("bitflip", "e" + nf, [u.rec(bytes(b))])
+        rf = refrag(bytes(b))
+        if rf: yield ("bitflip-split", "e" + nf, rf)
     for i in offsets(len(content) + 1, r, 24):
         yield ("trunc-content", "e" + nf, [u.rec(content[:i])])
     for n in (1, 3, 4, 12, 64):
@@ -227,9 +245,84 @@ def mutations(cfg, units, k, r):
         for nv in r.sample(sorted({0, max(0, v - 1), min(mx, v + 1), min(mx, rem + 1), mx, min(mx, rem)} - {v}), 2):
             b = bytearray(content); b[o:o + w] = nv.to_bytes(w, "big")
             yield ("lenfield", "e" + nf, [u.rec(bytes(b))])
+            rf = refrag(bytes(b))
+            if rf: yield ("lenfield-split", "e" + nf, rf)
     if ct != 22:
         return
     msgs = hs_msgs(cfg, content)
+    # the LAST element of a message claims 1..3 bytes more / less than there are, per nesting level: every length
+    # field whose vector ends exactly at the end of the body forms a chain (outermost first); the enclosing ones up
+    # to level j are kept consistent, the inner ones keep their old value.  Each variant is parsed out of the record
+    # buffer and - re-fragmented - out of an exact-size reassembly buffer (TLS / TLS 1.3 split records, DTLS fragments)
+    for (t, Lh, msn, off, fl, body, s, e) in msgs[:2]:
+        if d and not (off == 0 and fl == Lh): continue
+        if len(body) < 6: continue
+        chain = [(o, w, int.from_bytes(body[o:o + w], "big")) for o in range(len(body)) for w in (1, 2, 3)
+                 if o + w <= len(body) and int.from_bytes(body[o:o + w], "big") >= 1 and o + w + int.from_bytes(body[o:o + w], "big") == len(body)]
+        chain.sort()
+        chain = chain[:3] + chain[-5:] if len(chain) > 8 else chain
+        pre, post = content[:s], content[e:]
+        def deliver(kind, nb, hl_field, var):
+            M = hs_hdr(cfg, t, hl_field, msn, 0, hl_field if d else None) + nb
+            yield ("tail-%s-rec" % kind, "e" + nf, [u.rec(pre + M + post)])
+            if hl_field != len(nb): return
+            n_ = len(nb)
+            if d:
+                for i in sorted({1, n_ // 2, n_ - 1, r.randrange(1, n_)}):
+                    if 0 < i < n_:
+                        fa = u.rec(hs_hdr(cfg, t, n_, msn, 0, i) + nb[:i]); fb = u.rec(hs_hdr(cfg, t, n_, msn, i, n_ - i) + nb[i:], seqadd=1)
+                        yield ("tail-%s-split#%s" % (kind, var), "e" + nf, [fa, fb] if i != n_ // 2 else [fb, fa])
+            else:
+                for i in sorted({4, len(M) // 2, len(M) - 1, r.randrange(1, len(M))}):
+                    if 0 < i < len(M):
+                        yield ("tail-%s-split#%s" % (kind, var), "e" + nf, [u.rec(pre + M[:i]), u.rec(M[i:])])
+        for dd in (1, 2, 3):
+            last_field_end = max([o + w for (o, w, v) in chain] + [0])
+            if len(body) - dd > last_field_end:
+                for j in range(-1, len(chain) + 1):
+                    nb = bytearray(body[:-dd]); ok = True
+                    for (o, w, v) in chain[:max(j, 0)]:
+                        if v - dd < 0: ok = False; break
+                        nb[o:o + w] = (v - dd).to_bytes(w, "big")
+                    if ok:
+                        yield from deliver("over", bytes(nb), Lh if j < 0 else len(nb), "%d.%d.%d" % (s, dd, j))
+            for j in range(0, len(chain) + 1):
+                nb = bytearray(body + bytes(r.randrange(256) for _ in range(dd))); ok = True
+                for (o, w, v) in chain[:j]:
+                    if v + dd >= 1 << (8 * w): ok = False; break
+                    nb[o:o + w] = (v + dd).to_bytes(w, "big")
+                if ok:
+                    yield from deliver("under", bytes(nb), len(nb), "%d.%d.%d" % (s, dd, j))
+    # every extension in turn moved to the END of the message and made 1..3 bytes longer / shorter, its own leading
+    # length field (if it has one) and all enclosing lengths consistent: odd list lengths, element loops that step
+    # over the end.  Delivered whole and split (exact-size reassembly buffer).
+    for (t, Lh, msn, off, fl, body, s, e) in msgs[:2]:
+        if d and not (off == 0 and fl == Lh): continue
+        eb = ext_block(body)
+        if not eb: continue
+        o, exts = eb
+        pre, post = content[:s], content[e:]
+        for i, (et, ed) in enumerate(exts[:12]):
+            rest = exts[:i] + exts[i + 1:]
+            for dd in (1, -1, 3, 2, -2, -3):
+                if dd < 0 and len(ed) + dd < 0: continue
+                lead = 1 if (len(ed) >= 1 and ed[0] == len(ed) - 1) else 2 if (len(ed) >= 2 and int.from_bytes(ed[:2], "big") == len(ed) - 2) else 0
+                if dd > 0: pay = ed[lead:] + bytes(r.randrange(256) for _ in range(dd))
+                else: pay = ed[lead:len(ed) + dd] if len(ed) + dd >= lead else b""
+                if lead and len(pay) >= 1 << (8 * lead): continue
+                ned = (len(pay).to_bytes(lead, "big") if lead else b"") + pay
+                nb = put_exts(body, o, rest + [(et, ned)])
+                M = hs_hdr(cfg, t, len(nb), msn, 0, len(nb) if d else None) + nb
+                var = "%d.%d.%d" % (s, i, dd)
+                always = dd in (1, -1, 3)
+                if d:
+                    n_ = len(nb); h_ = max(1, n_ // 2)
+                    yield ("ext-last-split#" + var if always else "ext-last-more", "e" + nf,
+                           [u.rec(hs_hdr(cfg, t, n_, msn, 0, h_) + nb[:h_]), u.rec(hs_hdr(cfg, t, n_, msn, h_, n_ - h_) + nb[h_:], seqadd=1)])
+                else:
+                    h_ = r.randrange(4, len(M))
+                    yield ("ext-last-split#" + var if always else "ext-last-more", "e" + nf, [u.rec(pre + M[:h_]), u.rec(M[h_:])])
+                yield ("ext-last-rec", "e" + nf, [u.rec(pre + M + post)])
     # grow a length-prefixed vector inside a handshake message (its elements repeated), all enclosing
     # lengths kept consistent: element-count limits of the parsers (fixed-size tables in ssl_t)
     for (t, Lh, msn, off, fl, body, s, e) in msgs[:2]:
@@ -252,7 +345,10 @@ def mutations(cfg, units, k, r):
                 for (o2, w2, v2) in vc_enclosing(body, o, w, v):
                     nb[o2:o2 + w2] = ((v2 + delta) & ((1 << (8 * w2)) - 1)).to_bytes(w2, "big")
                 nb = bytes(nb)
-                yield ("vecgrow", "e" + nf, [u.rec(content[:s] + hs_hdr(cfg, t, len(nb), msn, 0, len(nb) if d else None) + nb + content[e:])])
+                mc = content[:s] + hs_hdr(cfg, t, len(nb), msn, 0, len(nb) if d else None) + nb + content[e:]
+                yield ("vecgrow", "e" + nf, [u.rec(mc)])
+                rf = refrag(mc)
+                if rf: yield ("vecgrow-split", "e" + nf, rf)
     for (t, Lh, msn, off, fl, body, s, e) in msgs[:3]:
         pre, post = content[:s], content[e:]
         # handshake length field
@@ -324,6 +420,25 @@ def mutations(cfg, units, k, r):
         # extension-ish: 16-bit lengths near the end of hello messages are covered by `lenfield`
 
 
+def ext_block(body):
+    """(offset of the 2-byte list length, [(type, data)]) of an extension list that ends the body, or None"""
+    for o in range(len(body) - 1):
+        L = int.from_bytes(body[o:o + 2], "big")
+        if L >= 4 and o + 2 + L == len(body):
+            p, exts = o + 2, []
+            while p + 4 <= len(body):
+                t = int.from_bytes(body[p:p + 2], "big"); l = int.from_bytes(body[p + 2:p + 4], "big")
+                if p + 4 + l > len(body): break
+                exts.append((t, body[p + 4:p + 4 + l])); p += 4 + l
+            if p == len(body) and exts: return o, exts
+    return None
+
+
+def put_exts(body, o, exts):
+    blob = b"".join(t.to_bytes(2, "big") + len(x).to_bytes(2, "big") + x for t, x in exts)
+    return body[:o] + len(blob).to_bytes(2, "big") + blob
+
+
 def vc_enclosing(body, o, w, v):
     """length fields before offset o whose vector ends exactly where a vector containing [o, o+w+v) could end"""
     out = []
@@ -354,11 +469,20 @@ def build_cases(caps, rng, per_state, classes_seen):
             for (cl, fl, chunks) in mutations(cfg, units, k, r):
                 chunks = [c for c in chunks if len(c) <= 40000]
                 if not chunks or sum(len(c) for c in chunks) > 60000: continue
-                byc.setdefault(cl, []).append((cl, fl, chunks))
+                cl, _, var = cl.partition("#")
+                byc.setdefault(cl, []).append((cl, fl, chunks, var))
             pick = []
             for cl in sorted(byc):
-                r.shuffle(byc[cl]); pick.append(byc[cl].pop())
-            rest = [x for cl in sorted(byc) for x in byc[cl]]
+                r.shuffle(byc[cl])
+                if cl in ALWAYS_CLASSES:
+                    # one delivery of every message variant (the variants are the (message, d, nesting level) grid)
+                    first = {}
+                    for x in byc[cl]: first.setdefault(x[3], x)
+                    pick += [x[:3] for x in first.values()]
+                    byc[cl] = [x for x in byc[cl] if first[x[3]] is not x]
+                    continue
+                pick.append(byc[cl].pop()[:3])
+            rest = [x[:3] for cl in sorted(byc) for x in byc[cl]]
             r.shuffle(rest)
             pick += rest[:max(0, per_state - len(pick))]
             for (cl, fl, chunks) in pick:
@@ -646,6 +770,60 @@ def gen_cbc(r, n):
     return out
 
 
+def gen_pb(r, n):
+    """psbuf parse primitives: (1) TLS vectors with the body on both sides of every boundary, (2) random programs"""
+    out = []
+    MAXC = [0, 1, 2, 254, 255, 256, 257, 65534, 65535, 65536, 65537, 16777215, 16777216, 16777217]
+    def nlb(mx): return (mx > 0) + (mx > 255) + (mx > 65535)
+    # (1) systematic grid: numLenBytes 0..3 (every maxLen class) x body present = 0..4, around 2^8, around 2^16 x
+    #     claimed length = present-3 .. present+3 x tight end / slack behind the end x pb / direct call
+    full = n > 5000
+    haves = [0, 1, 2, 3, 4, 7, 250, 252, 253, 254, 255, 256, 257, 258, 259]
+    big = [65532, 65533, 65534, 65535, 65536, 65537, 65538, 65539] if full else [65534, 65535, 65536, 65537]
+    MAXQ = MAXC if full else [0, 1, 255, 256, 65535, 65536, 16777215, 16777216, 16777217]
+    for mx in MAXQ:
+        k = nlb(mx)
+        for have in haves + (big if k >= 2 else []):
+            for dl in ((-3, -2, -1, 0, 1, 2, 3) if (full or have < 60000) else (-1, 0, 1, 2)):
+                L = have + dl
+                if L < 0 or (k and L >= 1 << (8 * k)) or (k == 0 and L != 0): continue
+                pre = bytes(r.randrange(256) for _ in range(r.choice([0, 0, 1, 3])))
+                body = bytes(r.randrange(256) for _ in range(have))
+                obj = pre + L.to_bytes(k, "big") + body
+                slack = r.choice([0, 0, 0, 2, 5])
+                obj2 = obj + bytes(r.randrange(256) for _ in range(slack))
+                mn = r.choice([0, 0, 1, L, L + 1, max(0, L - 1)])
+                if r.random() < 0.5:
+                    out.append("u pb %s %d %d v%d,%d g o" % (vlib.hexs(obj2), len(pre), len(obj) - len(pre), mn, mx))
+                else:
+                    out.append("u pb %s 0 %d V%d,%d,%d,%d" % (vlib.hexs(obj2), len(obj2), len(pre), len(obj), mn, mx))
+    # truncated length octets
+    for mx in (255, 65535, 16777215):
+        for cut in range(0, nlb(mx) + 1):
+            obj = (5).to_bytes(nlb(mx), "big")[:cut]
+            out.append("u pb %s 0 %d v0,%d" % (vlib.hexs(obj) if obj else "-", len(obj), mx))
+    # (2) random programs
+    n = max(n, len(out) + 300)
+    while len(out) < n:
+        ln = r.choice([0, 1, 2, 3, 4, 5, 6, 9, 12, 20, 40])
+        obj = bytes(r.choice([0, 0, 1, 2, 3, 4, 5, r.randrange(256)]) for _ in range(ln))
+        off = r.choice([0, 0, 0, min(ln, 1), min(ln, 3)]); plen = ln - off - r.choice([0, 0, 0, min(ln - off, 1), min(ln - off, 2)])
+        ops = []
+        for _ in range(r.choice([1, 2, 3, 5, 8])):
+            o = r.choice("ohwtsfrmgkvvVcCe" if r.random() < 0.2 else "ohwtsfrmgkvvVcC")
+            q = r.choice([0, 1, 2, 3, 4, 5, plen, plen + 1, max(0, plen - 1)])
+            if o in "tsfk": ops.append("%s%d" % (o, q))
+            elif o == "v": ops.append("v%d,%d" % (r.choice([0, 0, 1, 2]), r.choice([0, 1, 255, 256, 65535, 65536, 16777215, 16777217])))
+            elif o == "V":
+                a = r.randrange(0, ln + 1); b_ = r.randrange(a, ln + 1)
+                ops.append("V%d,%d,%d,%d" % (a, b_, r.choice([0, 0, 1, 2]), r.choice([0, 1, 255, 256, 65535, 65536, 16777215])))
+            elif o == "c": ops.append("c%d,%d" % (q, r.choice([0, 1, q, q + 1, max(0, q - 1), 40])))
+            elif o == "C": ops.append("C%d" % q)
+            else: ops.append(o)
+        out.append("u pb %s %d %d %s" % (vlib.hexs(obj) if obj else "-", off, plen, " ".join(ops)))
+    return out
+
+
 PRE_RE = re.compile(r"^pre=(\S+) (.*)$")
 SESS = {}       # (cfg, k, side) -> "head actv supp hs" learnt from a `u hdr` probe
 
@@ -667,6 +845,8 @@ def model_line(case, impl):
         pad = rec[-1]
         eq = int(all(x == pad for x in rec[max(5, len(rec) - 1 - pad):]))
         return "cbc %d %s %s %d %s 0 %d" % (L, mac, blk, pad, eiv, eq), m.group(2)
+    if op == "pb":
+        return "pb " + " ".join(t[2:]), impl
     if op == "api":
         return "api %s %s %s 1500 %s %s" % (t[5], t[6], t[7], t[8], t[9]), impl      # t[10] = inside / outside the contract
     key = (t[2], t[3], t[4])
@@ -769,6 +949,21 @@ def explore(ck, h, quick_per_state, thorough_per_state):
                               {"harness": "h_wire", "case": l, "observed": o, "expected_by_spec": "ok ..."})
         else:
             ck.add_distinct("x" + l[:200])
+    # directed: the server must have recorded exactly the host name the ClientHello carried
+    sn = corpus_lines("sni")
+    if sn:
+        want = b"sni.example.test".hex()
+        so, _ = run_parallel(h, sn, nproc=2)
+        for l, o in zip(sn, so):
+            ck.count("x:directed-sni")
+            sg = signature(o)
+            m = re.search(r" sni=(\S+)", o)
+            if sg:
+                ck.spec_violation(sg[0], sg[1] + " (directed server_name case)", {"harness": "h_wire", "case": l, "observed": o})
+            elif not m or m.group(1) != want:
+                ck.spec_violation("uninit:sni", "server_name of the ClientHello not recorded: expectedName = %s (uninitialised copiedLen handed to psParseBufCopyN)" % (m.group(1) if m else None),
+                                  {"harness": "h_wire", "case": l, "observed": o, "expected_by_spec": "sni=" + want})
+        lines = lines + sn
     ck.cov["evaluations"] += len(lines)
     ck.cov["exploration_cases"] = len(lines)
     ck.cov["exploration_findings"] = nfind
@@ -813,7 +1008,9 @@ def run(ck):
               ("TLS handshake reassembly: hs_record_tls vs matrixSslDecode", gen_tls(r, ck.budget(300, 4000)), "tls"),
               ("DTLS handshake reassembly: hs_record_dtls vs matrixSslDecode", gen_dtls(r, ck.budget(400, 5000)), "dtls"),
               ("API buffer arithmetic: received_data/processed_data vs matrixSslReceivedData (scripted decoder)", gen_api(r, ck.budget(300, 4000)), "api"),
-              ("CBC pad/MAC layout: cbc_mac_layout vs verifyMac arguments", gen_cbc(r, ck.budget(200, 3000)), "cbc")]
+              ("CBC pad/MAC layout: cbc_mac_layout vs verifyMac arguments", gen_cbc(r, ck.budget(200, 3000)), "cbc"),
+              ("psbuf parse primitives: parse_tls_vec / pb_* vs psParseTlsVariableLengthVec / psParseBuf* (exact-size heap objects)",
+               gen_pb(r, ck.budget(1200, 12000)), "pb")]
     for name, cases, op in groups:
         cases = corpus_lines("u-" + op) + cases
         cases = sorted(set(cases), key=cases.index)
@@ -848,6 +1045,7 @@ def run(ck):
             ck.count("u:%s:%s" % (op, "handoff" if "handoff" in o else o.split()[0] if o else "empty"))
             if op != "api" and (o == "FAULT" or o.startswith("HANG") or o.startswith("LEAK")):
                 sg = signature(impl_cmp[keep.index(c)]) or ("unit:" + o, o)
+                if op == "pb": sg = ("pbuf:" + sg[0], "a psbuf parse primitive accepted / read data outside its [start, end): " + sg[1])
                 ck.spec_violation(sg[0], "unit operation on the modelled code: %s" % sg[1], {"harness": "h_wire", "case": c, "observed": o})
     ck.rules.append("exploration: real transcripts of %d configurations (TLS 1.1/1.2 GCM/CBC/RSA/ECDSA/client-auth, TLS 1.3 AES/ChaCha/client-auth, DTLS 1.0/1.2 "
                     "incl. fragmented flights) replayed to every prefix state, both roles; per state a stratified sample of %d mutation classes (truncation at every byte, "
